@@ -28,13 +28,16 @@ def _(string: Str) -> Bytes:
     ensures(len(result) == 2 + len(utf8(string)))
 
 
-@contract('mqtt.pdu.decodeString', props=['C01', 'C02'])
+@contract('mqtt.pdu.decodeString', props=['C01', 'C02', 'C16'])
 def _(encoded: Bytes) -> Tuple[Str, Bytes]:
+    n = encoded[0] * 256 + encoded[1]
     raises(IndexError, when=len(encoded) < 2)
-    raises(UnicodeDecodeError, when=len(encoded) >= 2 and not valid_utf8(encoded[2:2 + (encoded[0] * 256 + encoded[1])]))
+    raises(ValueError, when=len(encoded) >= 2 and len(encoded) < 2 + n)
+    raises(UnicodeDecodeError, when=len(encoded) >= 2 + n and not valid_utf8(encoded[2:2 + n]))
     modifies()
-    ensures(result[0] == utf8dec(encoded[2:2 + (encoded[0] * 256 + encoded[1])]))
-    ensures(result[1] == encoded[2 + (encoded[0] * 256 + encoded[1]):])
+    ensures(len(encoded) >= 2 + n)
+    ensures(result[0] == utf8dec(encoded[2:2 + n]))
+    ensures(result[1] == encoded[2 + n:])
 
 
 @contract('mqtt.pdu.encodeLength', props=['C01', 'C02'])
